@@ -145,6 +145,7 @@ type Ctx struct {
 	log        []string
 	curFrame   *frame
 	onceDone   map[*Cell]bool
+	wgs        map[string]int64 // sync.WaitGroup counters by object
 	inGoPanic  bool
 	mapPolicy  int
 	pools      map[*Cell][]Value
